@@ -12,5 +12,6 @@ CONSTANTS
   RecFinishRenameFirst = FALSE
   Async = TRUE
   RotateDropsBuffer = FALSE
+  RotateInflight = FALSE
 INVARIANTS CrashSafe ReadsLikeMap
 CHECK_DEADLOCK FALSE
